@@ -60,6 +60,8 @@ pub enum Res {
     Full(Id),
     /// Closed with the id handed back (None: the error type cannot carry it)
     Closed(Option<Id>),
+    /// oneshot: "a value was already sent" with the id handed back
+    Sent(Id),
     BatchOk(usize),
     BatchErr { sent: usize, unsent: Vec<Id> },
     Val(Id),
